@@ -10,6 +10,11 @@ def _run(ctx):
         txt = f.read()
         if "Invariant C23_CommandsKeepWorking is violated" not in txt and "Invariant C23_TaNeverTruncated is violated" not in txt:
             raise lib.ToolError("the as_shipped variant of StoreCrash.tla is not rejected by TLC")
+    bad2 = lib.tlc(ctx, "mc_storecrash_bad_torn", "MC_StoreCrash.tla", "MC_StoreCrash_bad_torn.cfg", workers=2, timeout=600,
+                   expect_ok=False, count=False)
+    with open(bad2["out"], errors="replace") as f:
+        if "Invariant C23_PointOldOrNew is violated" not in f.read():
+            raise lib.ToolError("the seeded fault torn_is_fatal of StoreCrash.tla is not rejected by TLC")
     gen = lib.tlc(ctx, "gen_storecrash", "MC_StoreCrash.tla", "Gen_StoreCrash.cfg", workers=1, timeout=600, count=False)
     beh = ctx.path("storecrash.ndjson")
     n = lib.extract_replays(gen["out"], beh)
@@ -21,8 +26,9 @@ def _run(ctx):
         raise lib.ToolError("no kill point was exercised: " + "; ".join(r.get("divergences", [])[:3]))
     ctx.assumptions += [
         "kill = SIGKILL sent by the process to itself at hook H2 kill points placed before/after every file operation of the "
-        "store (create, truncate, write, rename, remove) and inside fs::write (truncated, not yet written); power loss / "
-        "fsync ordering is out of scope",
+        "store (create, truncate, write, rename, remove) and inside fs::write (truncated, not yet written), and, by strace fault "
+        "injection, at every rename / unlink / rmdir / ftruncate / mkdir call of an updating run and every write call of a run "
+        "that creates point files (headers are written in pieces); power loss / fsync ordering is out of scope",
         "validation-threads = 1 so that kill points are numbered deterministically; first an uninterrupted run counts them",
         "commands run through Operation::run in child processes of the harness, rsync served in-process",
     ]
